@@ -8,7 +8,7 @@ EXPLANATION = ('Structural necessary conditions of the back-off: normalisation (
                'runs in the constructor before the first period is taken; a step returns the current period (or a jittered value derived '
                'from it) and stores clamp(2 x current); the period is reset to the base only under connected-for > stability; the connect '
                'time is set only on a successful CONNACK and cleared when the connection ends; no panic-capable arithmetic or empty random '
-               'range in the step.')
+               'range in the step. Added in round 3: the reconnect timer / deadline is created once, outside the wait loop, in both drivers. Added after the mutation sweeps: the four reconnect-option setters store their argument.')
 ASSUMPTIONS = ['not decided: the numeric sequence for all configurations and the jitter distribution']
 
 
